@@ -11,7 +11,6 @@ From V.proofs Require Import BaseP GrammarAccP LossyRtP Deb822EditP.
 Require V.proofs.CopyrightP V.proofs.RelParseP V.proofs.GrammarParseP.
 From V.model Require Import LiveDoc.
 Require V.proofs.LiveDocP.
-Set Default Timeout 60.
 
 Local Notation LFc := 10%N.
 
